@@ -1,6 +1,7 @@
 import PharmpyModel.Core.Codec
 import PharmpyModel.C10.Model
 import PharmpyModel.C10.Unused
+import PharmpyModel.C10.DepGraph
 open Pharmpy Pharmpy.C10
 
 def errS : Err → Sexp
@@ -88,6 +89,20 @@ def handle (req : Sexp) : Sexp :=
   | .list [.atom "rename", ss, .atom x, .atom z] =>
     match stmts? ss with
     | some ss => .list ((renameStmts x z ss).map Stmt.toSexp)
+    | _ => bad
+  | .list [.atom "mgraph", ss] =>
+    match stmts? ss with
+    | some ss => .list ((depGraph ss).map (fun p => .list [.atom p.1, Sexp.ofStrs (canonSet p.2)]))
+    | _ => bad
+  | .list [.atom "mreach", ss, .atom x] =>
+    match stmts? ss with
+    | some ss =>
+      let G := depGraph ss
+      match G.lookup x with
+      | none => errS .keyError
+      | some _ =>
+        let S := reachFrom G x
+        .list [Sexp.ofStrs (canonSet S), Sexp.ofBool (closedUnder G S && S.contains x)]
     | _ => bad
   | .list [.atom "unused", syms, ps, ds] =>
     match symList? syms, ps.asList?, ds.asList? with
